@@ -86,6 +86,12 @@ def check_space(ctx, rng):
             return
     # diagonal(idx): condensed distances among a subset
     idx = np.sort(rng.choice(n, size=int(rng.integers(2, min(n, 8) + 1)), replace=False))
+    zero_pairs = [p for p, x in zip(bp, bd) if x == 0]
+    if zero_pairs and rng.random() < 0.8:
+        # co-located points: make sure a zero-distance pair is part of the extracted sub-matrix
+        a, b = zero_pairs[int(rng.integers(0, len(zero_pairs)))]
+        idx = np.unique(np.concatenate([idx, [a, b]]))
+        ctx.count('diagonal_with_colocated_pair')
     with quiet():
         sub = np.asarray(ms.diagonal(idx), float)
     want = np.array([full[a, b] for k, a in enumerate(idx) for b in idx[k + 1:]])
